@@ -294,11 +294,18 @@ class Evaluator:
                 return ('optnone',)
             inner = self._clo(args[1], None, depth) if n == 'then' else self.ev(args[1], depth + 1)
             return ('optord', inner[1]) if isinstance(inner, tuple) and inner and inner[0] == 'ord' else ('optsome', inner)
-        if not on_opt or n not in ('or', 'or_else', 'and_then', 'map', 'filter', 'map_or', 'unwrap_or', 'is_some_and', 'xor'):
+        if not on_opt or n not in ('or', 'or_else', 'and_then', 'map', 'filter', 'map_or', 'unwrap_or', 'is_some_and', 'is_none_or', 'xor'):
             return NotImplemented
         o = self.ev(args[0], depth + 1)
         if not isinstance(o, tuple) or o[0] not in ('optnone', 'optsome', 'optord'):
-            return None
+            # an Option the evaluator cannot compute but whose presence an atom decides (a lookup known to hit / miss)
+            d = self.ev(('discr', args[0]), depth + 1)
+            if d == 0 and not isinstance(d, bool):
+                o = ('optnone',)
+            elif d == 1 and not isinstance(d, bool):
+                o = ('optsome', None)
+            else:
+                return None
         none = o[0] == 'optnone' or (o[0] == 'optord' and o[1] == NONE)
         payload = ('field', args[0], 'Some.0')
         if n in ('or', 'or_else') and len(args) == 2:
@@ -325,6 +332,8 @@ class Evaluator:
             return ('ord', o[1]) if o[0] == 'optord' else o[1]
         if n == 'is_some_and' and len(args) == 2:
             return False if none else self._clo(args[1], payload, depth)
+        if n == 'is_none_or' and len(args) == 2:
+            return True if none else self._clo(args[1], payload, depth)
         return NotImplemented
 
 
